@@ -26,14 +26,14 @@ RULE = ('Generated: well-formed input files over the built-in sections: a temper
         '"mixin+base" selector or a custom python file is used; a third of the cases run the command-line program '
         'in-process on the file.  The finite table of documented selectors is checked exhaustively in every case '
         'of the selectors part.  Non-trivial = >=3 non-default keys across >=3 sections; distinct by case hash.'
-        ' A fourth part generates [Observation] / [Binning] / [Instrument] / [Optimizer] / [Fitting] / [Derive] sections (observation files in any row order, all five manual-grid keywords, accurate on/off, SNR instrument, nestle and multinest keys, fit / bounds / mode / factor / prior options on parameters resolved against the model the file builds, unknown names and keys); fill-gas lists include the word NO.')
+        ' A fifth part runs the command-line program in retrieval mode (-R) with the sampler replaced by a double delivering drawn samples: the saved spectrum and the stored solution must be the MAP model binned to the observation, the stored traces the delivered samples. A fourth part generates [Observation] / [Binning] / [Instrument] / [Optimizer] / [Fitting] / [Derive] sections (observation files in any row order, all five manual-grid keywords, accurate on/off, SNR instrument, nestle and multinest keys, fit / bounds / mode / factor / prior options on parameters resolved against the model the file builds, unknown names and keys); fill-gas lists include the word NO.')
 ASSUMPTIONS = [
     '"documented" = doc/source/user/taurex/*.rst in the working tree; the selector table is transcribed in this module and each entry is checked to occur in the rst text and to resolve to exactly one discovered class of its family',
     'constructor arguments are observed by wrapping __init__ of the built-in classes from the harness (no repository change); numbers must arrive equal in value (int vs float is not distinguished, the parser produces floats), booleans as bool, comma lists as lists of floats or strings',
     'optimizers needing absent libraries (polychord, dypolychord) and plugin components (ace, BHMie) cannot be discovered here and are not judged',
     'CLI differential: taurex.taurex.main() run in-process with -i -o -S on files the harness wrote (pickle cross-sections, pickle CIA); spectrum compared with the same components built through the library, rtol 1e-9',
 ]
-REQUIRED = {'part:sections': 0.2, 'part:cli': 0.08, 'part:selectors': 0.002, 'part:retrieval': 0.06, 'negative': 0.08}
+REQUIRED = {'part:sections': 0.2, 'part:cli': 0.08, 'part:selectors': 0.002, 'part:retrieval': 0.06, 'part:cli-retrieval': 0.03, 'negative': 0.08}
 # coverage-guided extra (thorough tier): pure-Python taurex modules on this property's path, instrumented by atheris
 FUZZ = {'include': ['taurex.parameter', 'taurex.util.util'], 'runs': 6000, 'workers': 4}
 
@@ -77,7 +77,7 @@ def _opt(strategy):
 
 @st.composite
 def _case(draw):
-    part = draw(st.sampled_from(['selectors', 'sections', 'cli', 'retrieval', 'sections', 'cli', 'retrieval', 'sections']))
+    part = draw(st.sampled_from(['selectors', 'cli-retrieval', 'sections', 'cli', 'retrieval', 'cli-retrieval', 'sections', 'cli', 'retrieval', 'sections']))
     c = {'part': part}
     if part == 'selectors':
         c['case_variant'] = draw(S.ints(0, 3))
@@ -119,6 +119,10 @@ def _case(draw):
     c['tables'] = draw(st.lists(S.table(6, mag='mixed'), min_size=3, max_size=3))
     c['wn0'] = draw(f(300.0, 4000.0))
     c['dwn'] = draw(f(5.0, 300.0))
+    if part == 'cli-retrieval':
+        nsm = draw(S.ints(3, 8))
+        c['cube'] = [[draw(f(0.05, 0.95)), draw(f(0.05, 0.95))] for _ in range(nsm)]
+        c['cube_w'] = [draw(f(0.05, 1.0)) for _ in range(nsm)]
     if part == 'retrieval':
         c['negative'] = None
         c['composite'] = None
@@ -1030,6 +1034,111 @@ def check_retrieval(out, c, tmp):
     return bool(len([l for l in lines if '=' in l]) >= 12)
 
 
+# ---------------------------------------------------------------------------------------------------
+# the command-line program in retrieval mode (-R), sampler replaced by the nestle double
+def check_cli_retrieval(out, c, tmp):
+    import h5py
+    import nestle
+    from taurex import taurex as prog
+    from taurex.parameter import ParameterParser
+    from vlib import doubles
+    from vlib.props.c05 import overlap_mean, midpoint_widths
+    synth.reset_world()
+    W = write_data(c, tmp)
+    c = dict(c, temp='isothermal', composite=None, negative=None)
+    c['gases'] = [dict(g, type='constant') for g in c['gases']]
+    lines, _ = build_par(c, tmp, W)
+    wn = W.wn
+    nb = 3
+    cen = np.linspace(wn[0] + 0.2 * (wn[-1] - wn[0]), wn[-1] - 0.2 * (wn[-1] - wn[0]), nb)
+    wl = 10000.0 / cen
+    dwl = 0.6 * (wl[0] - wl[1]) * np.ones(nb)
+    rows = np.column_stack([wl, [1e-3, 1.1e-3, 0.9e-3], [1e-5, 2e-5, 3e-5], dwl])
+    obsfile = os.path.join(tmp, 'obs.dat')
+    np.savetxt(obsfile, rows[[2, 0, 1]], fmt='%.17e')
+    rnom = c['plkeys']['planet_radius'] if c['plkeys']['planet_radius'] is not None else 1.0
+    lines += ['', '[Observation]', 'observed_spectrum = %s' % obsfile, '', '[Optimizer]', 'optimizer = nestle', 'num_live_points = 5',
+              '', '[Fitting]', 'planet_radius:fit = True', 'planet_radius:bounds = %r, %r' % (0.6 * rnom, 1.4 * rnom)]
+    fit_T = c['boolform'] % 2 == 0
+    if fit_T:
+        lines += ['T:fit = True', 'T:bounds = 400.0, 1900.0']
+    par = os.path.join(tmp, 'input.par')
+    with open(par, 'w') as f:
+        f.write('\n'.join(lines) + '\n')
+    us = [list(u_) for u_ in c['cube']]
+    wts = np.array(c['cube_w'], dtype=float) + 0.01 * np.arange(len(us))
+    wts = wts / wts.sum()
+    delivered = {}
+
+    def result(which, cap):
+        smp = np.array([np.asarray(cap.prior(np.array(u_[:cap.ndim], dtype=float)), dtype=float) for u_ in us])
+        delivered['samples'], delivered['ndim'] = smp, cap.ndim
+        return nestle.Result(samples=smp.copy(), weights=wts.copy(), logz=-3.0, logzerr=0.1, h=1.0, niter=len(wts), ncall=10,
+                             logl=np.zeros(len(wts)), logvol=np.zeros(len(wts)))
+    outfile = os.path.join(tmp, 'out.h5')
+    specfile = os.path.join(tmp, 'spec.dat')
+    argv = sys.argv
+    sys.argv = ['taurex', '-i', par, '-o', outfile, '-S', specfile, '-R']
+    import random
+    random.seed(777)
+    try:
+        with doubles.sampler_doubles(result=result):
+            with contextlib.redirect_stdout(io.StringIO()), contextlib.redirect_stderr(io.StringIO()), np.errstate(all='ignore'):
+                cut(out, 'cli-main@retrieval', prog.main)
+    finally:
+        sys.argv = argv
+        import logging
+        logging.disable(logging.CRITICAL)
+    out.applies('cli-retrieval')
+    if 'samples' not in delivered:
+        out.fail('cli-retrieval@sampler-not-called', 'the program finished without calling the sampler')
+        return False
+    smp = delivered['samples']
+    want_dim = 2 if fit_T else 1
+    if delivered['ndim'] != want_dim:
+        out.fail('cli-retrieval@dimensions', 'the [Fitting] section fits %d parameter(s), the sampler was given %d' % (want_dim, delivered['ndim']))
+        return False
+    best = smp[int(np.argmax(wts))]
+    # the library side: the same file built through the parser, set to the MAP by name, binned with the reference
+    synth.reset_world()
+    pp = ParameterParser()
+    pp.read(par)
+    pp.setup_globals()
+    m2 = pp.generate_appropriate_model()
+    with np.errstate(all='ignore'):
+        m2.build()
+        m2['planet_radius'] = float(best[0])
+        if fit_T:
+            m2['T'] = float(best[1])
+        g, s_, _, _ = m2.model()
+    g, s_ = np.asarray(g, dtype=float), np.asarray(s_, dtype=float)
+    own = np.sort(cen)
+    oww = (10000.0 * dwl / wl ** 2)[np.argsort(cen)]
+    _, nw = midpoint_widths(g)
+    want = np.array([overlap_mean(g - nw / 2, g + nw / 2, s_, own[i] - oww[i] / 2, own[i] + oww[i] / 2)[0] for i in range(nb)], dtype=float)
+    got = np.loadtxt(specfile, ndmin=2)
+    if got.shape != (nb, 4) or not close(got[:, 0], 10000.0 / own, rtol=1e-12) or not close(got[:, 1], want, rtol=1e-9, atol=1e-300):
+        out.fail('cli-retrieval@-S', 'saved spectrum is not the MAP model binned to the observation (max rel %.2e)'
+                 % (maxrel(got[:, 1], want) if got.shape == (nb, 4) else -1))
+    with h5py.File(outfile, 'r') as f:
+        try:
+            sol = f['Output']['Solutions']['solution0']
+            tr = np.asarray(sol['tracedata'][...], dtype=float)
+            ww = np.asarray(sol['weights'][...], dtype=float)
+            names = [x.decode() if isinstance(x, bytes) else str(x) for x in np.asarray(f['Optimizer']['fit_parameter_names'][()]).ravel()]
+            bs = np.asarray(sol['Spectra']['binned_spectrum'][...], dtype=float)
+        except KeyError as e:
+            out.fail('cli-retrieval@-o,missing', 'output file lacks %s' % e)
+            return True
+        if not np.array_equal(tr, smp) or not np.array_equal(ww, wts):
+            out.fail('cli-retrieval@-o,samples', 'stored traces / weights are not what the sampler delivered')
+        if names != ['planet_radius'] + (['T'] if fit_T else []):
+            out.fail('cli-retrieval@-o,names', 'stored fitted names %s' % names)
+        if not close(bs, want, rtol=1e-9, atol=1e-300):
+            out.fail('cli-retrieval@-o,spectrum', 'stored solution spectrum is not the MAP model binned to the observation')
+    return True
+
+
 def check(case):
     out = Outcome()
     part = case['part']
@@ -1040,6 +1149,8 @@ def check(case):
             out.nontrivial = bool(check_selectors(out))
         elif part == 'retrieval':
             out.nontrivial = bool(check_retrieval(out, case, tmp))
+        elif part == 'cli-retrieval':
+            out.nontrivial = bool(check_cli_retrieval(out, case, tmp))
         else:
             out.nontrivial = bool(check_sections(out, case, tmp, run_cli=(part == 'cli')))
     except CutError:
